@@ -333,3 +333,21 @@ def _k_absfunc(self, name, params, outputs=1, out_keys=None, ret="float"):
 
 
 K.absfunc = _k_absfunc
+
+
+def _k_close(self, a, b, tol=1e-4):
+    """equality over the reals; native mode: floating-point tolerance (rounding is outside the model)"""
+    if self.mode == "native":
+        return abs(a - b) <= tol * (1 + abs(a) + abs(b))
+    return L.eq(a, b)
+
+
+def _k_fn(self, qualname):
+    """another real function of the working tree (for contracts over compositions)"""
+    if self.mode == "native":
+        return self.native.function(qualname)
+    return self.world.function(qualname)
+
+
+K.close = _k_close
+K.fn = _k_fn
